@@ -31,8 +31,11 @@ class FileNode:
         self.data = bytearray(data)
         self.ino = 0
 
-    def clone(self):
-        return FileNode(self.data)
+    def clone(self, idmap=None):
+        n = FileNode(self.data)
+        if idmap is not None:
+            idmap[id(self)] = n
+        return n
 
 
 class DirNode:
@@ -42,10 +45,17 @@ class DirNode:
         self.children = {}
         self.ino = 0
 
-    def clone(self):
+    def clone(self, idmap=None):
         d = DirNode()
+        if idmap is not None:
+            idmap[id(self)] = d
+        seen = {}
         for k, v in self.children.items():
-            d.children[k] = v.clone()
+            # hard links: one node under two names stays one node
+            if id(v) in seen:
+                d.children[k] = seen[id(v)]
+            else:
+                d.children[k] = seen[id(v)] = v.clone(idmap)
         return d
 
 
@@ -79,6 +89,8 @@ class SimFS:
         self.on_torn = None            # callable(path, node, pos, data)
         self.faults = None             # callable(op, path) -> None or raises OSError
         self.open_writers = {}         # path -> count of open writable descriptions
+        self.open_raws = []            # SimRaw objects not yet closed (renames update their names)
+        self.hook_errors = []          # exceptions raised by world callbacks (harness bugs, never swallowed silently)
         self.max_concurrent_writers = 0
 
     # -- helpers ------------------------------------------------------------
@@ -137,8 +149,8 @@ class SimFS:
         for c in self._split(path):
             n = n.children.setdefault(c, DirNode())
 
-    def snapshot(self):
-        return self.root.clone()
+    def snapshot(self, idmap=None):
+        return self.root.clone(idmap)
 
     def walk_files(self, node=None, prefix=ROOT):
         node = node or self.root
@@ -167,7 +179,19 @@ class SimFS:
 
     def _mutated(self, kind, path, info=None):
         if self.on_mutation is not None and not (self.sim is not None and self.sim.in_probe):
-            self.on_mutation(kind, path, info)
+            try:
+                self.on_mutation(kind, path, info)
+            except Exception:          # a bug in the harness must never surface inside the code under test
+                import traceback
+                self.hook_errors.append(traceback.format_exc())
+
+    def _torn(self, raw, pos, data):
+        if self.on_torn is not None and not (self.sim is not None and self.sim.in_probe):
+            try:
+                self.on_torn(raw.name, raw.node, pos, data)
+            except Exception:
+                import traceback
+                self.hook_errors.append(traceback.format_exc())
 
     # -- syscalls ---------------------------------------------------------------
     def sys_open(self, path, m, excl=False, trunc=False, creat=False, append=False,
@@ -193,6 +217,7 @@ class SimFS:
             del node.data[:]
             truncated = True
         raw = SimRaw(self, node, path, readable, writable, append)
+        self.open_raws.append(raw)
         self._log(f"open {path} {m}" + (" +creat" if created else "") + (" +trunc" if truncated else ""))
         if writable:
             c = self.open_writers.get(path, 0) + 1
@@ -244,6 +269,12 @@ class SimFS:
             raise IsADirectoryError(errno.EISDIR, "Is a directory", dst)
         del sp.children[sn]
         dp.children[dn] = node
+        for raw in self.open_raws:
+            if raw.node is node:
+                if raw._w:
+                    self.open_writers[raw.name] = self.open_writers.get(raw.name, 1) - 1
+                    self.open_writers[dst] = self.open_writers.get(dst, 0) + 1
+                raw.name = dst
         self._log(f"replace {src} -> {dst}")
         self._mutated("replace", dst, {"src": src})
 
@@ -332,8 +363,7 @@ class SimRaw(io.RawIOBase):
         fs._fault("write", self.name)
         if self._append:
             self.pos = len(self.node.data)
-        if fs.on_torn is not None and not (fs.sim is not None and fs.sim.in_probe):
-            fs.on_torn(self.name, self.node, self.pos, b)
+        fs._torn(self, self.pos, b)
         if self.pos > len(self.node.data):
             self.node.data.extend(b"\0" * (self.pos - len(self.node.data)))
         self.node.data[self.pos:self.pos + len(b)] = b
@@ -370,6 +400,10 @@ class SimRaw(io.RawIOBase):
             if self._w:
                 fs.open_writers[self.name] = fs.open_writers.get(self.name, 1) - 1
             fs._log(f"close {self.name}")
+            try:
+                fs.open_raws.remove(self)
+            except ValueError:
+                pass
             if self._w:
                 fs._mutated("close", self.name, None)
         super().close()
